@@ -673,7 +673,9 @@ def validated_on_every_path(ctx, funcs, rule='VALIDATE'):
                 continue
             first = min(fi.node.body.index(_stmt_of(c)) for c, _cf in sites)
             n += 1
-            der = _derived_from(fi, {p})
+            # a path chosen by looking at any argument that is handed down for validation is a
+            # deliberate decision about that call, not an oversight
+            der = _derived_from(fi, set(handed))
             bad = []
             for ex in exits:
                 top = ex
